@@ -1,5 +1,5 @@
 (* C20 correspondence: observations of the real pkg/nathole code against Model/NatHole (+ NatHoleCtl). *)
-From FRP Require Export Corr.Common Model.NatHoleToday Model.NatHoleCtl.
+From FRP Require Export Corr.Common Model.NatHoleToday Model.NatHoleCtl Model.NatHoleTr.
 Open Scope Z_scope.
 
 Definition D := nh_today.
@@ -73,7 +73,8 @@ Inductive case :=
 | CAn (ops : list nh_aop) (obs : list orec)
 | CCl (addrs locals : list bytes) (res nat behav diff : Z) (reg pub : bool)
 | CRange (addrs : list bytes) (diff maxn : Z) (obs : list (Z * Z))
-| CCtl (auth : list (bytes * Z * bytes)) (evs : list cev).
+| CCtl (auth : list (bytes * Z * bytes)) (evs : list cev)
+| CTr (cap : Z) (l : list (tr_op * tr_obs)).   (* a real transport.MessageTransporter: operations and what was observed *)
 
 
 (* the property itself on one observed recommendation: roles complementary *)
@@ -117,7 +118,7 @@ Fixpoint zl_eqb (a b : list Z) : bool :=
   match a, b with [], [] => true | x :: a', y :: b' => (x =? y) && zl_eqb a' b' | _, _ => false end.
 
 (* 0 agree | 30 an observed event is not enabled in the model | 31 session table differs | 32 an inbox differs | 34 registered names differ
-   | 33 messages for a transporter the observation does not list *)
+   | 33 messages for a transporter the observation does not list | 40 a transporter observation the blocking select does not allow *)
 Fixpoint ctl_check (auth : bytes -> Z -> bytes) (st : ctl_state) (outs : list ctl_out) (evs : list cev) : Z :=
   match evs with
   | [] => 0
@@ -166,6 +167,7 @@ Definition check_case (c : case) : Z :=
       end
   | CRange addrs diff maxn obs =>
       if zz_list_eqb obs (nh_range_ports addrs diff maxn) then 0 else 20
+  | CTr cap l => match tr_run (tr_init (Z.to_nat cap)) l with Some _ => 0 | None => 40 end
   | CCtl auth evs =>
       if negb (forallb cev_holds evs) then 51 else ctl_check (auth_of auth) ctl_init [] evs
   end.
@@ -189,3 +191,13 @@ Definition ev_kind (k : Z) (e : ctl_ev) : bool :=
   | _, _ => false
   end.
 Definition count_ev (k : Z) (l : list case) : Z := count_if (ev_kind k) (flat_map ctl_evs l).
+
+Definition is_tr (c : case) : bool := match c with CTr _ _ => true | _ => false end.
+Definition tr_obs_kind (k : Z) (c : case) : Z :=
+  match c with
+  | CTr _ l => count_if (fun p : tr_op * tr_obs => match snd p, k with
+                                                    | TrEnqueued, 0 | TrClosed, 1 | TrParked, 2 | TrDrained _ true, 3 | TrDoneObs true, 4 => true
+                                                    | _, _ => false end) l
+  | _ => 0
+  end.
+Fixpoint sum_by {A} (f : A -> Z) (l : list A) : Z := match l with [] => 0 | x :: r => f x + sum_by f r end.
